@@ -21,7 +21,7 @@ RULE = ('Cases: an ancestor with 1..3 planted insertions/deletions of length 1..
         'planted indels must be reported (inconclusive below 500 planted), over the whole run and over each of its three input populations: random indels, indels that repeat their flank (homopolymer / tandem-unit length changes), and indels whose junction lies inside a split k-mer with self-complementary arms (a quarter of the cases each for the last two).  Non-trivial: >= 1 planted indel; distinct = inputs.')
 ASSUMPTIONS = ['the sample sequences written by the generator are the ground truth',
                'recall is judged on the aggregate of a run with a minimum sample size of 500 planted indels']
-REQUIRED = {t: ['records_checked', 'planted', 'planted:plain', 'planted:flank', 'planted:palin', 'insertions', 'deletions', 'threads>1', 'multi_indel_inputs'] for t in ('quick', 'thorough')}
+REQUIRED = {t: ['records_checked', 'planted', 'planted:plain', 'planted:flank', 'planted:palin', 'insertions', 'deletions', 'threads>1', 'multi_indel_inputs', 'headers_checked'] for t in ('quick', 'thorough')}
 KS = [11, 15, 21, 31]
 
 
@@ -208,7 +208,10 @@ def run_case(desc, ctx):
         res.count('generator_gave_up')
         return res
     anc, ss, indels, carriers, singles = g
-    files = [G.write_fa(ctx.path('s%d.fa' % i), [s if rng.random() < 0.5 else M.rc(s)]) for i, s in enumerate(ss)]
+    pool = ['zeta', 'alpha', 'Mu', 'beta9', 'x10', 'x2', 'omega', 'delta', 'B_7', 'kappa']
+    r3 = random.Random(desc['seed'] ^ 0xabc)
+    snames = r3.sample(pool, ns) if desc['seed'] % 2 else ['s%d' % i for i in range(ns)]
+    files = [G.write_fa(ctx.path('%s.fa' % snames[i]), [s if rng.random() < 0.5 else M.rc(s)]) for i, s in enumerate(ss)]
     p = G.ska_build(ctx, ctx.path('o'), files, k, True)
     if p.returncode != 0:
         raise Inconclusive('build failed: ' + p.stderr[-200:])
@@ -227,6 +230,12 @@ def run_case(desc, ctx):
     recs = []
     try:
         for l in open(ctx.path('out_indels.vcf')):
+            if l.startswith('#CHROM'):
+                if l.rstrip('\n').split('\t')[9:] != snames:
+                    res.violate('C18:header', 'sample columns of the indel VCF are %s, the samples are %s (in this order)'
+                                % (l.rstrip('\n').split('\t')[9:], snames), detail)
+                    return res
+                res.count('headers_checked')
             if l.startswith('#'):
                 continue
             f = l.rstrip('\n').split('\t')
